@@ -878,6 +878,73 @@ def c12_batch_histories(rng, nmax=4, full=False):
     return out
 
 
+def c12_idseq_histories(rng, nmax=4, idstr=None):
+    """a batch of n entries answered by EVERY sequence of n ids drawn from its own range (repeats and omissions
+    together, sorted or not): n^n replies"""
+    out = []
+    for n in range(1, nmax + 1):
+        for seq in itertools.product(range(n), repeat=n):
+            H = new_hist(rng, idstr=idstr)
+            if rng.random() < 0.3:
+                H.op_call()
+            H.op_batch()
+            hb = H.h
+            lo, nn = H.batches[hb]
+            while nn != n:
+                H = new_hist(rng, idstr=idstr)
+                H.op_batch()
+                hb = H.h
+                lo, nn = H.batches[hb]
+            ids = [lo + j for j in seq]
+            H.batches.pop(hb)
+            objs = [H.resp_ok(i) if rng.random() < 0.85 else H.resp_err(i) for i in ids]
+            mode = "perm" if sorted(seq) == list(range(n)) else "multiset"
+            H.back(J(objs), what="batch-answer", h=hb, lo=lo, n=n, mode=mode, objs=objs, items=[])
+            H.clean = False
+            out.append(H)
+    return out
+
+
+def c05_multi_sub_family(rng, bufcap, idstr, pattern):
+    """several subscriptions; `pattern` is a list of sub indexes, one push each; delivered (a) one frame per push,
+    (b) all in one array, (c) in random chunks.  The consumer polls every stream afterwards.  Returns the family."""
+    fam = []
+    nsubs = max(pattern) + 1
+    for mode in ("single", "packed", "chunks"):
+        H = new_hist(rng, idstr=idstr, bufcap=bufcap)
+        subs = []
+        for k in range(nsubs):
+            H.op_sub()
+            subs.append(accept_sub_h(H, H.h, sid=("S%d" % k) if k % 2 == 0 else 100 + k))
+        pushes = [(subs[k], "q%d" % j) for j, k in enumerate(pattern)]
+        if mode == "single":
+            groups = [[p] for p in pushes]
+        elif mode == "packed":
+            groups = [pushes]
+        else:
+            groups, cur = [], []
+            for p in pushes:
+                cur.append(p)
+                if rng.random() < 0.4:
+                    groups.append(cur); cur = []
+            if cur:
+                groups.append(cur)
+        for g in groups:
+            objs = [H.notif(sub["nm"], sub["sid"], v) for sub, v in g]
+            items = [dict(what="push", sid=sub["sid"], val=v) for sub, v in g]
+            if len(objs) == 1 and mode == "single":
+                H.back(objs[0], what="pushes", items=items, grouped=False)
+            else:
+                H.back(J(objs), what="pushes", items=items, grouped=True)
+        for sub in subs:
+            for _ in range(len(pattern) + 2):
+                H.add("next %d" % sub["h"], kind="next")
+        H.clean = False
+        H.family_subs = [sub["h"] for sub in subs]
+        fam.append(H)
+    return fam
+
+
 def c18_cycle_history(rng, reps, kinds=None):
     """long repetitions of complete cycles; ends quiescent"""
     H = new_hist(rng, qcap=16, bufcap=4)
